@@ -18,7 +18,7 @@ package main
 //@   ensures[C18 writes-go-to-temp] nw <= 1 && (nw == 1 ==> callarg("(*File).Write", 1, 0).(*os.File) == tmp && base(callarg("(*File).Write", 1, 1)) == base(b) && off(callarg("(*File).Write", 1, 1)) == off(b) && len(callarg("(*File).Write", 1, 1)) == len(b))
 //@   ensures[C18 rename-only-after-complete-write] ncalls("Rename") <= 1 && (ncalls("Rename") == 1 ==> nw == 1 && callres("(*File).Write", 1, 1) == nil && ncalls("(*File).Close") == 1 && callres("(*File).Close", 1, 0) == nil)
 //@   ensures[C18 rename-temp-onto-target] ncalls("Rename") == 1 ==> callarg("Rename", 1, 1).(string) == filename && callarg("Rename", 1, 0).(string) == callres("(*File).Name", ncalls("(*File).Name"), 0).(string)
-//@   ensures[C18 mode-preserved] ncalls("Rename") == 1 ==> ncalls("Stat") == 1 && callarg("Stat", 1, 0).(string) == filename && (callres("Stat", 1, 1) == nil ==> ncalls("Chmod") == 1 && callres("Chmod", 1, 0) == nil && callarg("Chmod", 1, 1).(os.FileMode) == callres("(FileMode).Perm", 1, 0).(os.FileMode) && callarg("(FileMode).Perm", 1, 0).(os.FileMode) == callres("(FileInfo).Mode", 1, 0).(os.FileMode) && callarg("(FileInfo).Mode", 1, 0) == callres("Stat", 1, 0))
+//@   ensures[C18 mode-preserved] ncalls("Rename") == 1 ==> ncalls("Stat") == 1 && callarg("Stat", 1, 0).(string) == filename && callres("Stat", 1, 1) == nil && (ncalls("Chmod") == 1 && callres("Chmod", 1, 0) == nil && callarg("Chmod", 1, 1).(os.FileMode) == callres("(FileMode).Perm", 1, 0).(os.FileMode) && callarg("(FileMode).Perm", 1, 0).(os.FileMode) == callres("(FileInfo).Mode", 1, 0).(os.FileMode) && callarg("(FileInfo).Mode", 1, 0) == callres("Stat", 1, 0))
 //@   ensures[C18 success-iff-renamed] err == nil <==> ncalls("Rename") == 1 && callres("Rename", 1, 0) == nil
 //@   modifies class os., class fs.
 
